@@ -33,6 +33,25 @@ var solvers = []solverSpec{
 	}},
 }
 
+// Second-chance configurations of z3-new (used only in the retry pass): a different
+// random seed or arithmetic / relevancy setting changes the instantiation order, which
+// decides within a second many quantified goals the default order does not find (a
+// harmless edit renumbers the constants of a query and can flip such luck).
+var retrySolvers = []solverSpec{
+	{"z3-new-5.1.0-seed2", func(f string, t time.Duration) []string {
+		return []string{"z3-new", "smt.random_seed=2", fmt.Sprintf("-T:%d", int(t.Seconds())+1), f}
+	}},
+	{"z3-new-5.1.0-seed3", func(f string, t time.Duration) []string {
+		return []string{"z3-new", "smt.random_seed=3", fmt.Sprintf("-T:%d", int(t.Seconds())+1), f}
+	}},
+	{"z3-new-5.1.0-arith2", func(f string, t time.Duration) []string {
+		return []string{"z3-new", "smt.arith.solver=2", fmt.Sprintf("-T:%d", int(t.Seconds())+1), f}
+	}},
+	{"z3-new-5.1.0-norelevancy", func(f string, t time.Duration) []string {
+		return []string{"z3-new", "smt.relevancy=0", fmt.Sprintf("-T:%d", int(t.Seconds())+1), f}
+	}},
+}
+
 var querySeq int64
 
 type solveResult struct {
@@ -44,7 +63,7 @@ type solveResult struct {
 }
 
 // race runs every solver on the query; the first definite answer wins.
-func race(query string, timeout time.Duration, dir string, tag string, wantAll bool) solveResult {
+func race(query string, timeout time.Duration, dir string, tag string, wantAll bool, retry bool) solveResult {
 	// one file per query: obligation names are not unique within a unit (several loops'
 	// cover checks share a name) and workers run concurrently
 	file := filepath.Join(dir, fmt.Sprintf("%s.%d.smt2", sanitize(tag), atomic.AddInt64(&querySeq, 1)))
@@ -57,12 +76,15 @@ func race(query string, timeout time.Duration, dir string, tag string, wantAll b
 		name, status, out string
 		ms                int64
 	}
-	ch := make(chan one, len(solvers))
 	start := time.Now()
 	useSolvers := solvers
 	if strings.Contains(query, "(lambda ") {
 		useSolvers = solvers[:2]
 	}
+	if retry {
+		useSolvers = append(append([]solverSpec{}, useSolvers...), retrySolvers...)
+	}
+	ch := make(chan one, len(useSolvers))
 	for _, s := range useSolvers {
 		s := s
 		go func() {
@@ -128,7 +150,7 @@ func solveAll(obls []*Obligation, timeout time.Duration, workers int, dir string
 		go func() {
 			defer wg.Done()
 			for o := range jobs {
-				solveOne(o, timeout, dir, thorough)
+				solveOne(o, timeout, dir, thorough, false)
 			}
 		}()
 	}
@@ -162,20 +184,20 @@ func solveAll(obls []*Obligation, timeout time.Duration, workers int, dir string
 			defer wg2.Done()
 			defer func() { <-sem }()
 			first := o.Ms
-			solveOne(o, 3*timeout, dir, thorough)
+			solveOne(o, 3*timeout, dir, thorough, true)
 			o.Ms += first
 		}(o)
 	}
 	wg2.Wait()
 }
 
-func solveOne(o *Obligation, timeout time.Duration, dir string, thorough bool) {
+func solveOne(o *Obligation, timeout time.Duration, dir string, thorough bool, retry bool) {
 	q := o.ctx.Query(o.Mark, []*Term{o.Hyp}, o.Goal, nil)
 	tag := shortName(o.Unit) + "__" + o.Name
 	if o.Cover && timeout > 3*time.Second {
 		timeout = 3 * time.Second
 	}
-	r := race(q, timeout, dir, tag, thorough)
+	r := race(q, timeout, dir, tag, thorough, retry)
 	o.Backend, o.Ms = r.backend, r.ms
 	if o.Cover {
 		switch r.status {
